@@ -10,7 +10,7 @@ from simtz import core
 from simtz.runner import rng_for
 
 ID = 'C28'
-QUICK_RUNS = 20000
+QUICK_RUNS = 40000
 QUICK_BUDGET_S = 60
 CHUNK = 250
 RULE = (
